@@ -305,6 +305,11 @@ def run(ctx, eng):
            'FlowControlError.error_code is FLOW_CONTROL_ERROR')
     ctx.assume('hyperframe parses the SETTINGS payload into plain int '
                'identifiers and values')
+    cm.include(ctx, eng, 'C11',
+               lambda o: o.rule == 'COH.apply-map' and
+               o.desc.startswith('remote INITIAL_WINDOW_SIZE '),
+               'the overflow of a stream window is found when the delta is '
+               'applied: it must be applied whatever else the frame carries')
     cm.include(ctx, eng, 'C18', {'ORD.terminate', 'FLOW.goaway'},
                'the code the exception carries is the code of the GOAWAY: '
                'the handler that terminates the connection passes '
